@@ -305,7 +305,7 @@ func VH_C09_batches() {
 	for c := 1; c < ncols; c++ {
 		// ids that sort before, inside and after the ids of the first collection
 		vhWriteCmd(s, "SET", names[c], "aa", "STRING", "v")
-		vhWriteCmd(s, "SET", names[c], "id10", "FIELD", "f", "2", "POINT", "2", "2")
+		vhWriteCmd(s, "SET", names[c], "id10", "FIELD", "f", "2", "FIELD", "code", `"123"`, "FIELD", "flag", `"true"`, "FIELD", "doc", `{"a":1}`, "POINT", "2", "2")
 		vhWriteCmd(s, "SET", names[c], "zz", "EX", "1000", "POINT", "3", "3")
 	}
 	vhWriteCmd(s, "SETCHAN", "ch", "WITHIN", "a", "FENCE", "BOUNDS", "0", "0", "1", "1")
@@ -352,7 +352,7 @@ func VH_C09_interference() {
 		vhWriteCmd(s, "SET", "a", "id0"+vhDigits[i], "POINT", "1", vhDigits[i])
 	}
 	vhWriteCmd(s, "SET", "b", "aa", "STRING", "v")
-	vhWriteCmd(s, "SET", "b", "id10", "FIELD", "f", "2", "POINT", "2", "2")
+	vhWriteCmd(s, "SET", "b", "id10", "FIELD", "f", "2", "FIELD", "code", `"123"`, "POINT", "2", "2")
 	vhWriteCmd(s, "SET", "b", "zz", "EX", "1000", "POINT", "3", "3")
 	vhWriteCmd(s, "SETCHAN", "ch", "WITHIN", "a", "FENCE", "BOUNDS", "0", "0", "1", "1")
 	at := vchoose(9)
